@@ -65,6 +65,15 @@ LEVEL_SPECS = (None, ["a", "b", "c"], ["c", "a", "b"], ["a", "b"], ["b"], ["a", 
 
 
 def _dummy_task(sequences):
+    try:
+        return _dummy_task_body(sequences)
+    except Exception as e:  # nothing may escape a pool worker
+        first = list(sequences[0]) if sequences else []
+        return 1, set(), [], [(f"oracle-not-applicable:{type(e).__name__}", first, None, False, "list",
+                               f"{type(e).__name__}: {e}\n{traceback.format_exc()[-1500:]}")]
+
+
+def _dummy_task_body(sequences):
     import pandas
 
     from formulaic.utils.sparse import categorical_encode_series_to_sparse_csc_matrix as enc
@@ -98,15 +107,19 @@ def _dummy_task(sequences):
                     except Exception as e:  # outcome of the code under test
                         status, detail = f"raises-{type(e).__name__}", f"{type(e).__name__}: {e}"
                     else:
-                        dummies = pandas.get_dummies(pandas.Categorical(list(values), categories=levels), drop_first=drop_first)
-                        if list(got_levels) != exp_levels:
-                            status, detail = "levels", f"levels {list(got_levels)} expected {exp_levels}"
-                        elif got.shape != exp.shape or not (got.toarray() == exp).all():
-                            status, detail = "indicator", f"got {got.toarray().tolist()} expected {exp.tolist()}"
-                        elif list(dummies.columns) != exp_levels or not (dummies.values.astype(float) == got.toarray()).all():
-                            status, detail = "vs-get_dummies", f"get_dummies gives {dummies.values.tolist()} columns {list(dummies.columns)}"
+                        try:
+                            dummies = pandas.get_dummies(pandas.Categorical(list(values), categories=levels), drop_first=drop_first)
+                            if list(got_levels) != exp_levels:
+                                status, detail = "levels", f"levels {list(got_levels)} expected {exp_levels}"
+                            elif got.shape != exp.shape or not (got.toarray() == exp).all():
+                                status, detail = "indicator", f"got {got.toarray().tolist()} expected {exp.tolist()}"
+                            elif list(dummies.columns) != exp_levels or not (dummies.values.astype(float) == got.toarray()).all():
+                                status, detail = "vs-get_dummies", f"get_dummies gives {dummies.values.tolist()} columns {list(dummies.columns)}"
+                        except Exception as e:  # the returned objects cannot be judged (not a sparse matrix, not a list, ...)
+                            status, detail = f"oracle-not-applicable:{type(e).__name__}", f"{type(e).__name__}: {e}"
                     if status != "ok":
-                        cls = f"{status}:{'levels-given' if levels is not None else 'levels-inferred'}:{'drop' if drop_first else 'nodrop'}"
+                        cls = status if status.startswith("oracle-not-applicable") else \
+                            f"{status}:{'levels-given' if levels is not None else 'levels-inferred'}:{'drop' if drop_first else 'nodrop'}"
                         failures.append((cls, list(values), levels, drop_first, cname, detail))
     return n_eval, keys, samples, failures
 
@@ -318,7 +331,18 @@ if a[0] != "raises":
 
 
 def _compare(ref, other):
-    """ref/other: ("raises", type, msg) | ("ok", names, X, problem).  -> None or (what, detail)."""
+    """ref/other: ("raises", type, msg) | ("garbage", type, msg) | ("ok", names, X, problem).  -> None or (what, detail).
+    Never raises: if the comparison itself cannot be carried out, that is reported as the verdict."""
+    for r in (other, ref):
+        if r[0] == "garbage":
+            return f"oracle-not-applicable:{r[1]}", f"the returned object could not be read as names + numbers: {r[2]}"
+    try:
+        return _compare_inner(ref, other)
+    except Exception as e:
+        return f"oracle-not-applicable:{type(e).__name__}", f"{type(e).__name__}: {e}"
+
+
+def _compare_inner(ref, other):
     if ref[0] == "raises" or other[0] == "raises":
         if ref[0] == other[0]:
             return None
@@ -385,7 +409,9 @@ def _classify(clause, route, output, what, traits, na, ref, res):
         who = f"entry({route})"
     else:
         who = ROUTE_GROUP[route]
-    if "str-dtype" in traits:
+    if what.startswith("oracle-not-applicable"):
+        kind = what
+    elif "str-dtype" in traits:
         kind = "str-dtype"
     elif who == "narwhals-arrow" and what in ("names", "names-order", "shape") and "category-column" in traits:
         # the levels of a dictionary (categorical) column: order, levels without rows (also after rows were dropped)
@@ -398,6 +424,18 @@ def _classify(clause, route, output, what, traits, na, ref, res):
 
 
 def _agree_task(args):
+    try:
+        return _agree_task_body(args)
+    except Exception as e:  # nothing may escape a pool worker
+        cls = f"task:oracle-not-applicable:{type(e).__name__}"
+        witness = {"formula": "(whole task)", "frame": mf.spec_summary(args[0]), "options": None, "route": None, "output": None,
+                   "reference": None, "traits": [], "what": cls, "cls": cls,
+                   "code": "from vf.bounded import c05\nc05._agree_task_body(" + repr(tuple(args)) + ")\n"}
+        detail = f"{type(e).__name__}: {e}\n{traceback.format_exc()[-1500:]}"
+        return 1, set(), [], [("C05.entrypoints.agree", witness, detail)], {("C05.entrypoints.agree", cls): 1}
+
+
+def _agree_task_body(args):
     import pyarrow
 
     spec, seed, frame_index, nformulas, part, nparts, na_all = args
@@ -422,21 +460,30 @@ def _agree_task(args):
                             continue
                         try:
                             names, X, problem = _canon(mm, output)
-                        except Exception:
-                            raise RuntimeError(f"driver error canonicalising {route}/{output} for {formula!r}:\n{traceback.format_exc()}")
+                        except Exception as e:  # what came back cannot even be read as names + numbers: an outcome
+                            results[(route, output)] = ("garbage", type(e).__name__, f"{type(e).__name__}: {e}"[:300])
+                            continue
                         results[(route, output)] = ("ok", names, X, problem)
                         if route == "sugar":
                             # model-spec method of the attached spec, same data
                             try:
                                 mm2 = mm.model_spec.get_model_matrix(df, context={"np": numpy})
-                                results[("respec-method", output)] = ("ok", *_canon(mm2, output))
                             except Exception as e:
                                 results[("respec-method", output)] = ("raises", type(e).__name__, str(e)[:200])
+                            else:
+                                try:
+                                    results[("respec-method", output)] = ("ok", *_canon(mm2, output))
+                                except Exception as e:
+                                    results[("respec-method", output)] = ("garbage", type(e).__name__, f"{type(e).__name__}: {e}"[:300])
                 n_eval += 1
                 key = (mf.spec_summary(spec), frame_index, formula, rank, na)
                 ref_key = ("sugar", "numpy")
                 ref = results[ref_key]
-                if ref[0] == "ok" and any(n not in ("Intercept", "lhs", "rhs") and not str(n).startswith("shape") for n in ref[1]):
+                try:
+                    nontrivial = ref[0] == "ok" and any(n not in ("Intercept", "lhs", "rhs") and not str(n).startswith("shape") for n in ref[1])
+                except Exception:
+                    nontrivial = True
+                if nontrivial:
                     keys.add(_digest(key))
                 if len(samples) < 2:
                     samples.append({"frame": mf.spec_summary(spec), "formula": formula, "ensure_full_rank": rank, "na_action": na,
